@@ -144,6 +144,29 @@ func c18GenFile(prev []c18Item) []c18Item {
 	}
 	// edit: change some values, maybe add a key, maybe add a comment; never remove keys
 	items = append(items, prev...)
+	if simrt.Chance(1, 5) {
+		// same-size edit: one value changes in its last character, the file keeps its length
+		// (a reload that decides "unchanged" from the size, or from a digest of too little, misses it)
+		var cand []int
+		for i := range items {
+			if v := items[i].Value; items[i].Kind == "kv" && len(v) > 0 {
+				if c := v[len(v)-1]; (c >= '0' && c <= '9') || (c >= 'a' && c <= 'y') {
+					cand = append(cand, i)
+				}
+			}
+		}
+		if len(cand) > 0 {
+			i := cand[simrt.Choose(len(cand))]
+			b := []byte(items[i].Value)
+			if c := b[len(b)-1]; c >= '0' && c <= '9' {
+				b[len(b)-1] = '0' + (c-'0'+1+byte(simrt.Choose(8)))%10
+			} else {
+				b[len(b)-1] = c + 1
+			}
+			items[i].Value = string(b)
+			return items
+		}
+	}
 	changed := false
 	for i := range items {
 		if items[i].Kind == "kv" && simrt.Chance(1, 3) {
